@@ -45,16 +45,20 @@ func isAllowedPossibleValue(opt *Option, value interface{}) error {
 		return nil
 	}
 
+	// Only values of a comparable type can be compared using ==. Everything
+	// else (nil, slices, maps) is left to reflect.DeepEqual.
+	valueType := reflect.TypeOf(value)
+	canCompare := valueType != nil && valueType.Comparable()
+
 	for _, val := range opt.PossibleValues {
 		compareAgainst := val.Value
-		valueType := reflect.TypeOf(value)
 
 		// loading int's from the configuration JSON does not preserve the correct type
 		// as we get float64 instead. Make sure to convert them before.
-		if reflect.TypeOf(val.Value).ConvertibleTo(valueType) {
+		if canCompare && reflect.TypeOf(val.Value).ConvertibleTo(valueType) {
 			compareAgainst = reflect.ValueOf(val.Value).Convert(valueType).Interface()
 		}
-		if compareAgainst == value {
+		if canCompare && compareAgainst == value {
 			return nil
 		}
 
